@@ -116,13 +116,22 @@ impl SATSolver {
                     invariant c__i <= cl__v@.len(),
 //%% end
 
-// A-normalise: the normalisation prologue of `new` (clone + sort + dedup of every clause through map / collect, a `filter` closure with
-// nested loops that drops clauses containing a literal and its negation, and a prime per literal from the external sieve `primal`) is
-// replaced by the stub verif_weighted_clauses, which states what it computes; everything after it is the real text.
+// R-map-collect (twice), R-filter, A-primes: the normalisation prologue of `new` is rewritten by the definitions of its iterator adaptors --
+// `cnf.clauses().iter().map(|clause| BODY).collect()` -> push BODY for every clause; `clauses.iter().filter(|clause| BODY)` -> the closure
+// (BODY verbatim, with its nested loops and early `return false`) bound to a name and called for every clause, keeping the references it
+// accepts; the weighting `i.map({|clause| clause.iter().map(|lit| E).collect()}).collect()` -> two nested push loops with E verbatim.
+// `c.sort()` / `c.dedup()` are the std stubs (same set of literals); `primal::Primes` (external sieve) is a stub yielding SOME number.
 // R-enumerate for the index-building loop; `for _ in` gets a named index.
 //%% extract src/repr/unit_prop.rs :: impl SATSolver :: fn new
 //%% @ret r
-//%% @rewrite 1 /\/\/ normalize the clauses by \(1\) deduplicating and \(2\) filtering\n.*?let clauses: Vec<Vec<\(Literal, u128\)>> = i\n.*?\.collect\(\);\n/ => let clauses: Vec<Vec<(Literal, u128)>> = verif_weighted_clauses(&cnf);\n
+//%% @rewrite 1 /let clauses: Vec<Vec<Literal>> = cnf\n\s*\.clauses\(\)\n\s*\.iter\(\)\n\s*\.map\(\|clause\| \{\n(.*?)\n\s*\}\)\n\s*\.collect\(\);/ => let clauses: Vec<Vec<Literal>> = { let mut mc__o: Vec<Vec<Literal>> = Vec::new(); let cl__s = cnf.clauses(); for clause in mc__it: cl__s.iter() { let mc__x = {\n\1\n }; mc__o.push(mc__x); } mc__o };
+//%% @rewrite 1 /c\.sort\(\);/ => verif_sort_full(&mut c);
+//%% @rewrite 1 /c\.dedup\(\);/ => verif_dedup(&mut c);
+//%% @rewrite 1 /let i = clauses\.iter\(\)\.filter\(\|clause\| \{/ => let keep = |clause: &Vec<Literal>| -> (kb: bool) ensures kb == !has_clash(clause@) {
+//%% @rewrite 1 /\n(\s*)true\n\s*\}\);/ => \n\1true\n\1}; let mut i: Vec<&Vec<Literal>> = Vec::new(); for clause in flt__it: clauses.iter() { if keep(clause) { i.push(clause); } }
+//%% @rewrite 1 /let mut primes = primal::Primes::all\(\);/ => let mut primes = verif_primes_all();
+//%% @rewrite 1 /let clauses: Vec<Vec<\(Literal, u128\)>> = i\n\s*\.map\(\{\n\s*\|clause\| \{\n\s*clause\n\s*\.iter\(\)\n\s*\.map\(\|lit\| (.*?)\)\n\s*\.collect\(\)\n\s*\}\n\s*\}\)\n\s*\.collect\(\);/ => let clauses1 = Ghost(clauses@); let clauses: Vec<Vec<(Literal, u128)>> = { let mut wm__o: Vec<Vec<(Literal, u128)>> = Vec::new(); for clause in wm__it: i.iter() { let mut wm__c: Vec<(Literal, u128)> = Vec::new(); for lit in wm__jt: clause.iter() { let wm__x = \1; wm__c.push(wm__x); } wm__o.push(wm__c); } wm__o };
+//%% @rewrite 1 /primes\.next\(\)\.unwrap\(\) as u128/ => verif_next_prime(&mut primes)
 //%% @rewrite 1 /let mut pos_lit = Vec::new\(\);/ => let mut pos_lit: Vec<BitSet> = Vec::new();
 //%% @rewrite 1 /let mut neg_lit = Vec::new\(\);/ => let mut neg_lit: Vec<BitSet> = Vec::new();
 //%% @rewrite 1 /for _ in 0\.\.\(cnf\.num_vars\(\)\) \{/ => for nv__k in 0..(cnf.num_vars()) {
@@ -135,19 +144,58 @@ impl SATSolver {
             r matches Some(s) ==> s.solver_ok() && s.state_stack@.len() == 2 && s.up.cnf == cnf && wnorm(s)
                 && implied_by(cnf.clauses@, s.top()) && at_fixpoint(s.cs(), s.top()),
 //%% @entry
-        proof { lemma_norm_ok(cnf.clauses@); }
-//%% @loop 1 /^for nv__k in 0\.\.\(cnf\.num_vars\(\)\)$/
+        let ghost cs0 = cnf.clauses@;
+        let ghost mut kept: Seq<int> = Seq::empty();
+        proof { lemma_norm_ok(cnf.clauses@); axiom_clone_eq::<Literal>(); }
+//%% @loop 1 /^for clause in mc__it: cl__s\.iter\(\)$/
+                    invariant
+                        mc__o@.len() == mc__it.index@, cl__s@ == cs0,
+                        forall|k: int| 0 <= k < mc__o@.len() ==> same_lits((#[trigger] mc__o@[k])@, cs0[k]@),
+//%% @loop 2 /^for i in 0\.\.clause\.len\(\)$/
+                        invariant forall|x: int, y: int| 0 <= x < i && x < y < clause@.len() ==> !clash(#[trigger] clause@[x], #[trigger] clause@[y]),
+//%% @loop 3 /^for j in \(i \+ 1\)\.\.clause\.len\(\)$/
+                            invariant
+                                i < clause@.len(),
+                                forall|x: int, y: int| 0 <= x < i && x < y < clause@.len() ==> !clash(#[trigger] clause@[x], #[trigger] clause@[y]),
+                                forall|y: int| i < y < j ==> !clash(clause@[i as int], #[trigger] clause@[y]),
+//%% @loop 4 /^for clause in flt__it: clauses\.iter\(\)$/
+                    invariant
+
+                        forall|x: &Vec<Literal>| #[trigger] keep.requires((x,)),
+                        forall|x: &Vec<Literal>, kb: bool| #[trigger] keep.ensures((x,), kb) ==> kb == !has_clash(x@),
+                        kept.len() == i@.len(),
+                        forall|k: int| 0 <= k < kept.len() ==> 0 <= #[trigger] kept[k] < flt__it.index@ && *i@[k] == clauses@[kept[k]] && !has_clash(clauses@[kept[k]]@),
+                        forall|j: int| 0 <= j < flt__it.index@ && !has_clash((#[trigger] clauses@[j])@) ==> kept.contains(j),
+//%% @loopend 4
+                    proof {
+                        let j = flt__it.index@ as int;
+                        if i@.len() > kept.len() {
+                            lemma_push_contains_int(kept, j);
+                            kept = kept.push(j);
+                        }
+                    }
+//%% @loop 5 /^for clause in wm__it: i\.iter\(\)$/
+                    invariant
+                        wm__o@.len() == wm__it.index@,
+                        forall|k: int| 0 <= k < wm__o@.len() ==> wproj((#[trigger] wm__o@[k])@) =~= (*i@[k])@,
+//%% @loop 6 /^for lit in wm__jt: clause\.iter\(\)$/
+                        invariant
+                            wm__c@.len() == wm__jt.index@,
+                            forall|t: int| 0 <= t < wm__c@.len() ==> (#[trigger] wm__c@[t]).0 == clause@[t],
+//%% @before /^\s*\/\/ initialize pos_lit and neg_lit$/
+                proof { lemma_wnorm_from_parts(cnf, clauses1@, kept, i@, clauses@); }
+//%% @loop 7 /^for nv__k in 0\.\.\(cnf\.num_vars\(\)\)$/
                     invariant
                         pos_lit@.len() == nv__k, neg_lit@.len() == nv__k,
                         forall|v: int, i: usize| 0 <= v < nv__k ==> !(#[trigger] pos_lit@[v]@.contains(i)),
                         forall|v: int, i: usize| 0 <= v < nv__k ==> !(#[trigger] neg_lit@[v]@.contains(i)),
-//%% @loop 2 /^for clause_idx in 0\.\.clauses\.len\(\)$/
+//%% @loop 8 /^for clause_idx in 0\.\.clauses\.len\(\)$/
                     invariant
                         pos_lit@.len() == cnf.num_vars, neg_lit@.len() == cnf.num_vars,
                         forall|a: int, b: int| 0 <= a < clauses@.len() && 0 <= b < clauses@[a]@.len() ==> (#[trigger] clauses@[a]@[b]).0.lbl.0 < cnf.num_vars,
                         forall|v: int, i: usize| 0 <= v < pos_lit@.len() ==> ((#[trigger] pos_lit@[v]@.contains(i)) == (i < clause_idx && wcontains(clauses@[i as int]@, Literal { lbl: VarLabel(v as u64), pol: true }))),
                         forall|v: int, i: usize| 0 <= v < neg_lit@.len() ==> ((#[trigger] neg_lit@[v]@.contains(i)) == (i < clause_idx && wcontains(clauses@[i as int]@, Literal { lbl: VarLabel(v as u64), pol: false }))),
-//%% @loop 3 /^for lit in lt__it: clause\.iter\(\)$/
+//%% @loop 9 /^for lit in lt__it: clause\.iter\(\)$/
                         invariant
                             pos_lit@.len() == cnf.num_vars, neg_lit@.len() == cnf.num_vars, clause@ == clauses@[clause_idx as int]@, clause_idx < clauses@.len(),
                             forall|a: int, b: int| 0 <= a < clauses@.len() && 0 <= b < clauses@[a]@.len() ==> (#[trigger] clauses@[a]@[b]).0.lbl.0 < cnf.num_vars,
@@ -377,6 +425,7 @@ pub proof fn lemma_flag_full(s: SATSolver, k: int)
 
 // ---- what the flag means for the FORMULA: relative to wnorm, which SATSolver::new ensures (A-normalise) ----
 /// the clause contains a literal and its negation
+#[verifier::opaque]
 pub open spec fn taut(c: Seq<Literal>) -> bool { exists|j: int, k: int| 0 <= j < c.len() && 0 <= k < c.len() && (#[trigger] c[j]).lbl == (#[trigger] c[k]).lbl && c[j].pol != c[k].pol }
 /// same literals
 #[verifier::opaque]
@@ -385,8 +434,8 @@ pub open spec fn wsame(wc: Seq<(Literal, u128)>, c: Seq<Literal>) -> bool {
 }
 /// the weighted clause list is the formula's non-tautological clauses, literal set by literal set
 pub open spec fn wnorm_rel(wcs: Seq<Vec<(Literal, u128)>>, cs: Seq<Vec<Literal>>) -> bool {
-    &&& forall|i: int| 0 <= i < wcs.len() ==> exists|j: int| 0 <= j < cs.len() && !taut(cs[j]@) && wsame((#[trigger] wcs[i])@, (#[trigger] cs[j])@)
-    &&& forall|j: int| 0 <= j < cs.len() && !taut((#[trigger] cs[j])@) ==> exists|i: int| 0 <= i < wcs.len() && wsame((#[trigger] wcs[i])@, cs[j]@)
+    &&& forall|i: int| 0 <= i < wcs.len() ==> #[trigger] wn1(wcs, cs, i)
+    &&& forall|j: int| 0 <= j < cs.len() && !taut(cs[j]@) ==> #[trigger] wn2(wcs, cs, j)
 }
 pub open spec fn wnorm(s: SATSolver) -> bool { wnorm_rel(s.clauses@, s.cs()) }
 pub proof fn lemma_wsame_true(wc: Seq<(Literal, u128)>, c: Seq<Literal>, m: PartialModel)
@@ -414,6 +463,7 @@ pub proof fn lemma_flag_meaning_1(s: SATSolver, m: PartialModel)
     ensures s.all_wtrue(m),
 {
     assert forall|i: int| 0 <= i < s.clauses@.len() implies wclause_true((#[trigger] s.clauses@[i])@, m) by {
+        assert(wn1(s.clauses@, s.cs(), i));
         let j = choose|j: int| 0 <= j < s.cs().len() && !taut(s.cs()[j]@) && wsame(s.clauses@[i]@, (#[trigger] s.cs()[j])@);
         lemma_wsame_true(s.clauses@[i]@, s.cs()[j]@, m);
     }
@@ -423,6 +473,7 @@ pub proof fn lemma_flag_meaning_2(s: SATSolver, m: PartialModel)
     ensures nontaut_true(s.cs(), m),
 {
     assert forall|j: int| 0 <= j < s.cs().len() && !taut((#[trigger] s.cs()[j])@) implies clause_true_p(s.cs()[j]@, m) by {
+        assert(wn2(s.clauses@, s.cs(), j));
         let i = choose|i: int| 0 <= i < s.clauses@.len() && wsame((#[trigger] s.clauses@[i])@, s.cs()[j]@);
         assert(wclause_true(s.clauses@[i]@, m));
         lemma_wsame_true(s.clauses@[i]@, s.cs()[j]@, m);
@@ -434,6 +485,7 @@ pub proof fn lemma_sat_extensions(s: SATSolver, m: PartialModel, env: Asg)
     requires wnorm(s), s.all_wtrue(m), agrees(env, m),
     ensures cnf_holds(s.cs(), env),
 {
+    reveal(taut);
     lemma_flag_meaning_2(s, m);
     assert forall|j: int| 0 <= j < s.cs().len() implies clause_holds((#[trigger] s.cs()[j])@, env) by {
         let c = s.cs()[j]@;
@@ -445,5 +497,102 @@ pub proof fn lemma_sat_extensions(s: SATSolver, m: PartialModel, env: Asg)
             let k = choose|k: int| 0 <= k < c.len() && lit_true_p(#[trigger] c[k], m);
             assert(lit_holds(c[k], env));
         }
+    }
+}
+
+/// the two literals are on one variable with opposite polarities
+pub open spec fn clash(a: Literal, b: Literal) -> bool { a.lbl == b.lbl && a.pol != b.pol }
+/// some pair of positions x < y clashes (what the filter closure of SATSolver::new tests)
+pub open spec fn has_clash(c: Seq<Literal>) -> bool { exists|x: int, y: int| 0 <= x < y < c.len() && clash(#[trigger] c[x], #[trigger] c[y]) }
+pub proof fn lemma_has_clash_taut(c: Seq<Literal>)
+    ensures has_clash(c) == taut(c),
+{
+    reveal(taut);
+    if has_clash(c) { let (x, y) = choose|x: int, y: int| 0 <= x < y < c.len() && clash(#[trigger] c[x], #[trigger] c[y]); assert(c[x].lbl == c[y].lbl && c[x].pol != c[y].pol); }
+    if taut(c) {
+        let (j, k) = choose|j: int, k: int| 0 <= j < c.len() && 0 <= k < c.len() && (#[trigger] c[j]).lbl == (#[trigger] c[k]).lbl && c[j].pol != c[k].pol;
+        if j < k { assert(clash(c[j], c[k])); } else { assert(clash(c[k], c[j])); }
+    }
+}
+/// the literals of a weighted clause
+pub open spec fn wproj(wc: Seq<(Literal, u128)>) -> Seq<Literal> { Seq::new(wc.len(), |t: int| wc[t].0) }
+pub proof fn lemma_push_contains_int(s: Seq<int>, x: int)
+    ensures s.push(x).contains(x), forall|y: int| s.contains(y) ==> #[trigger] s.push(x).contains(y),
+{
+    assert(s.push(x)[s.len() as int] == x);
+    assert forall|y: int| s.contains(y) implies #[trigger] s.push(x).contains(y) by {
+        let i = choose|i: int| 0 <= i < s.len() && s[i] == y; assert(s.push(x)[i] == y);
+    }
+}
+/// tautology depends on the set of literals only
+pub proof fn lemma_taut_same(a: Seq<Literal>, b: Seq<Literal>)
+    requires same_lits(a, b), taut(a),
+    ensures taut(b),
+{
+    reveal(taut);
+    let (j, k) = choose|j: int, k: int| 0 <= j < a.len() && 0 <= k < a.len() && (#[trigger] a[j]).lbl == (#[trigger] a[k]).lbl && a[j].pol != a[k].pol;
+    assert(a.contains(a[j]) && a.contains(a[k]));
+    assert(b.contains(a[j]) && b.contains(a[k]));
+    let j2 = choose|t: int| 0 <= t < b.len() && b[t] == a[j];
+    let k2 = choose|t: int| 0 <= t < b.len() && b[t] == a[k];
+    assert(b[j2].lbl == b[k2].lbl && b[j2].pol != b[k2].pol);
+}
+/// one weighted clause: it has the literal set of the formula clause it came from, which is not a tautology
+pub proof fn lemma_wnorm_one(c: Seq<Literal>, f: Seq<Literal>, wc: Seq<(Literal, u128)>)
+    requires same_lits(c, f), wproj(wc) =~= c, !has_clash(c),
+    ensures wsame(wc, f), !taut(f),
+{
+    reveal(wsame);
+    assert forall|t: int| 0 <= t < wc.len() implies f.contains((#[trigger] wc[t]).0) by { assert(wproj(wc)[t] == wc[t].0); assert(c[t] == wc[t].0); assert(c.contains(c[t])); }
+    assert forall|t: int| 0 <= t < f.len() implies wcontains(wc, #[trigger] f[t]) by {
+        assert(f.contains(f[t])); assert(c.contains(f[t]));
+        let u = choose|u: int| 0 <= u < c.len() && c[u] == f[t];
+        assert(wproj(wc)[u] == wc[u].0);
+    }
+    lemma_has_clash_taut(c);
+    if taut(f) { assert(same_lits(f, c)); lemma_taut_same(f, c); }
+}
+/// first half of wnorm_rel for one weighted clause
+pub open spec fn wn1(wcs: Seq<Vec<(Literal, u128)>>, cs: Seq<Vec<Literal>>, i: int) -> bool { exists|j: int| 0 <= j < cs.len() && !taut(cs[j]@) && wsame(wcs[i]@, (#[trigger] cs[j])@) }
+pub open spec fn wn2(wcs: Seq<Vec<(Literal, u128)>>, cs: Seq<Vec<Literal>>, j: int) -> bool { exists|i: int| 0 <= i < wcs.len() && wsame((#[trigger] wcs[i])@, cs[j]@) }
+/// the normalisation prologue of SATSolver::new, end to end: c1 = the clauses sorted and deduplicated (same literal sets, index by index),
+/// kept = the indices the tautology filter let through (exactly those without a clashing pair), wcs = the kept clauses with weights
+pub proof fn lemma_wnorm_from_parts(cnf: Cnf, c1: Seq<Vec<Literal>>, kept: Seq<int>, fl: Seq<&Vec<Literal>>, wcs: Seq<Vec<(Literal, u128)>>)
+    requires
+        cnf.wf(),
+        c1.len() == cnf.clauses@.len(), forall|k: int| 0 <= k < c1.len() ==> same_lits((#[trigger] c1[k])@, cnf.clauses@[k]@),
+        kept.len() == fl.len(),
+        forall|k: int| 0 <= k < kept.len() ==> 0 <= #[trigger] kept[k] < c1.len() && *fl[k] == c1[kept[k]] && !has_clash(c1[kept[k]]@),
+        forall|j: int| 0 <= j < c1.len() && !has_clash((#[trigger] c1[j])@) ==> kept.contains(j),
+        wcs.len() == fl.len(), forall|k: int| 0 <= k < wcs.len() ==> wproj((#[trigger] wcs[k])@) =~= (*fl[k])@,
+    ensures
+        wnorm_rel(wcs, cnf.clauses@),
+        forall|a: int, b: int| 0 <= a < wcs.len() && 0 <= b < wcs[a]@.len() ==> (#[trigger] wcs[a]@[b]).0.lbl.0 < cnf.num_vars,
+{
+    let cs = cnf.clauses@;
+    assert forall|i: int| 0 <= i < wcs.len() implies wn1(wcs, cs, i) by {
+        let j = kept[i];
+        assert(same_lits(c1[j]@, cs[j]@));
+        lemma_wnorm_one(c1[j]@, cs[j]@, wcs[i]@);
+        assert(0 <= j < cs.len() && !taut(cs[j]@) && wsame(wcs[i]@, cs[j]@));
+    }
+    assert forall|j: int| 0 <= j < cs.len() && !taut(cs[j]@) implies wn2(wcs, cs, j) by {
+        assert(same_lits(c1[j]@, cs[j]@));
+        lemma_has_clash_taut(c1[j]@);
+        if taut(c1[j]@) { lemma_taut_same(c1[j]@, cs[j]@); }
+        assert(kept.contains(j));
+        let k = choose|k: int| 0 <= k < kept.len() && kept[k] == j;
+        lemma_wnorm_one(c1[j]@, cs[j]@, wcs[k]@);
+        assert(0 <= k < wcs.len() && wsame(wcs[k]@, cs[j]@));
+    }
+    assert forall|a: int, b: int| 0 <= a < wcs.len() && 0 <= b < wcs[a]@.len() implies (#[trigger] wcs[a]@[b]).0.lbl.0 < cnf.num_vars by {
+        let j = kept[a];
+        assert(same_lits(c1[j]@, cs[j]@));
+        lemma_wnorm_one(c1[j]@, cs[j]@, wcs[a]@);
+        reveal(wsame);
+        let f = cs[j]@;
+        assert(f.contains(wcs[a]@[b].0));
+        let u = choose|u: int| 0 <= u < f.len() && f[u] == wcs[a]@[b].0;
+        assert(cnf.clauses[j][u] == f[u]);
     }
 }
